@@ -1,0 +1,12 @@
+//go:build verif
+
+package list
+
+// Hook for the verification harness (/verif, property C19): read-only snapshot
+// of the unexported scroll state.
+
+// VerifState returns cursor, top index, line offset, pending scroll and the
+// wants-cursor flag.
+func (d *Dynamic) VerifState() (cursor uint, top uint, offset int, pending int, wantsCursor bool) {
+	return d.cursor, d.scroll.top, d.scroll.offset, d.scroll.pending, d.scroll.wantsCursor
+}
